@@ -279,6 +279,13 @@ pub fn run_c02(tier: &str, seed: u64, model: &Model, corpus: Vec<Case>) -> Repor
         c.info = s.iter().any(|&b| b < 4);
         cases.push(c);
     }
+    // very long clean stretches (counters of the iterator running over tens of thousands of steps lose different windows on the
+    // two strands): the stream of the reverse complement must still be the reversed, strand-swapped stream
+    for &(k, len) in &[(5u64, 66_000usize), (31, 70_000), (16, 131_200)] {
+        let mut s = gen::clean_seq(&mut rng, len, gen::Flavor::Uniform);
+        s[len / 15] = b'N';
+        cases.push(Case::new("kmers", &[k], &s, "long-one-n"));
+    }
     run_section(&mut rep, model, "strands", cases, &impl_strands, &judge_strands);
     rep
 }
